@@ -539,8 +539,8 @@ def r_argpos(prog, tier):
                       'guard `len(%s) == 0 or %s[-1][0] != %s`' % (cur, cur, unparse(k)) if okm else
                       'the emission is not guarded by exactly the test on the *current* argument `%s`' % cur,
                       construct='extract-merge', line=n.lineno))
-    if sites < 4:
-        raise AnalysisError('R-ARGPOS found %d emission sites (4 expected)' % sites)
+    if sites < 3:
+        raise AnalysisError('R-ARGPOS found %d emission sites (at least 3 expected)' % sites)
     # one argument per block
     f = prog.func('grammar', 'extract')
     cfg = f.cfg
@@ -877,41 +877,47 @@ def r_sortedpos(prog, tier):
     for n in walk_own(f.node):
         if isinstance(n, ast.For):
             it = n.iter
-            base = it.args[0] if isinstance(it, ast.Call) and unparse(it.func) == 'enumerate' and it.args else it
-            if isinstance(base, ast.Name) and base.id in posd:
+            src = it.args[0] if isinstance(it, ast.Call) and unparse(it.func) == 'enumerate' and it.args else it
+            if isinstance(src, ast.Name) and src.id in posd:
                 t = n.target
                 if isinstance(t, ast.Tuple) and len(t.elts) == 2 and isinstance(t.elts[1], ast.Name):
                     inner.add(t.elts[1].id)
     cnt = 0
-    gens = []
+    iters = []
     for n in walk_own(f.node):
         if isinstance(n, ast.comprehension):
-            gens.append((n.iter, n))
-        if isinstance(n, ast.For):
-            gens.append((n.iter, n))
-    for it, owner in gens:
-        nm = None
-        wrapped = False
-        if isinstance(it, ast.Name):
-            nm = it.id
-        elif isinstance(it, ast.Call) and isinstance(it.func, ast.Name) and it.func.id == 'sorted' and it.args \
-                and isinstance(it.args[0], ast.Name):
-            nm = it.args[0].id
-            wrapped = not any(k.arg == 'reverse' for k in it.keywords)
-        elif isinstance(it, ast.Call) and it.args and isinstance(it.args[0], ast.Name) and \
-                isinstance(it.func, ast.Attribute) and it.func.attr in ('keys', 'items', 'values'):
-            nm = it.args[0].id
+            iters.append(n.iter)
+        elif isinstance(n, ast.For):
+            iters.append(n.iter)
+        elif isinstance(n, ast.Call) and isinstance(n.func, ast.Name) and n.func.id in ('list', 'tuple') and n.args:
+            iters.append(n.args[0])
+        elif isinstance(n, ast.Call) and isinstance(n.func, ast.Attribute) and n.func.attr == 'join' and n.args \
+                and not isinstance(n.args[0], (ast.ListComp, ast.GeneratorExp)):
+            iters.append(n.args[0])
+
+    def base(e):
+        """(name, wrapped in sorted()) of an iterated expression over a dictionary"""
+        if isinstance(e, ast.Call) and isinstance(e.func, ast.Name) and e.func.id == 'sorted' and e.args:
+            nm, _ = base(e.args[0])
+            return nm, not any(k.arg == 'reverse' for k in e.keywords) and not (
+                isinstance(e.args[0], ast.Call) and isinstance(e.args[0].func, ast.Attribute)
+                and e.args[0].func.attr == 'values')
+        if isinstance(e, ast.Call) and isinstance(e.func, ast.Attribute) and e.func.attr in ('keys', 'items', 'values') \
+                and isinstance(e.func.value, ast.Name):
+            return e.func.value.id, False
+        if isinstance(e, ast.Name):
+            return e.id, False
+        return None, False
+    for it in iters:
+        nm, wrapped = base(it)
         if nm is None or nm not in (posd | inner):
             continue
-        # the enumerate loop over the list built from the dict is fine (it is a list by then)
-        if isinstance(owner, ast.For) and isinstance(it, ast.Call):
-            pass
-        # a position dict that was already turned into a list by sorted() may be enumerated
         cnt += 1
         obs.append(Ob('R-SORTEDPOS', f.fq, 'positions collected in dictionary `%s` are written in ascending order'
                       % nm, wrapped, 'iterated through sorted()' if wrapped else
-                      'iterated in insertion order: arguments come out in the order the linearization mentions '
-                      'them, not by position', construct='sortedpos:%s:%s' % (nm, unparse(it)), line=it.lineno))
+                      'iterated in insertion order (`%s`): arguments come out in the order the linearization mentions '
+                      'them, not by position' % unparse(it)[:40], construct='sortedpos:%s:%s' % (nm, unparse(it)),
+                      line=it.lineno))
     if cnt < 2:
         raise AnalysisError('rcg writer: %d iterations over position dictionaries found (2 expected)' % cnt)
     return obs, {}
